@@ -4,6 +4,7 @@
 mod action;
 mod api;
 mod candle;
+mod convert;
 mod methods;
 mod num;
 mod params;
@@ -33,6 +34,8 @@ fn dispatch(cmd: &str, rest: &[String]) {
 		"params-replay" => params::replay(rest),
 		"candle-replay" => candle::replay(rest),
 		"candle-record" => candle::record(rest),
+		"convert-replay" => convert::replay(rest),
+		"convert-record" => convert::record(rest),
 		"num-record" => num::record(rest),
 		"tok-replay" => tok::replay(rest),
 		"tok-record" => tok::record(rest),
